@@ -161,7 +161,10 @@ func (calc *CouplingMetricsCalculator) calculateSystemMetrics() {
 	var totalFanIn, totalFanOut float64
 	var totalInstability, totalAbstractness, totalDistance float64
 
-	for _, metrics := range calc.graph.ModuleMetrics {
+	// Sum in sorted module order: float addition is not associative, so summing
+	// in map iteration order would change the last digits from run to run
+	for _, moduleName := range calc.sortedMetricModuleNames() {
+		metrics := calc.graph.ModuleMetrics[moduleName]
 		totalFanIn += float64(metrics.AfferentCoupling)
 		totalFanOut += float64(metrics.EfferentCoupling)
 		totalInstability += metrics.Instability
@@ -270,7 +273,8 @@ func (calc *CouplingMetricsCalculator) calculateSystemComplexity() float64 {
 		mean := calc.graph.SystemMetrics.AverageInstability
 		var sumSquaredDiffs float64
 
-		for _, metrics := range calc.graph.ModuleMetrics {
+		for _, moduleName := range calc.sortedMetricModuleNames() {
+			metrics := calc.graph.ModuleMetrics[moduleName]
 			diff := metrics.Instability - mean
 			sumSquaredDiffs += diff * diff
 		}
@@ -335,7 +339,8 @@ func (calc *CouplingMetricsCalculator) identifyRefactoringPriorities() []string 
 
 	var candidates []refactoringCandidate
 
-	for moduleName, metrics := range calc.graph.ModuleMetrics {
+	for _, moduleName := range calc.sortedMetricModuleNames() {
+		metrics := calc.graph.ModuleMetrics[moduleName]
 		priority := 0.0
 
 		// High priority for poor architectural position
@@ -363,7 +368,10 @@ func (calc *CouplingMetricsCalculator) identifyRefactoringPriorities() []string 
 
 	// Sort by priority (highest first)
 	sort.Slice(candidates, func(i, j int) bool {
-		return candidates[i].priority > candidates[j].priority
+		if candidates[i].priority != candidates[j].priority {
+			return candidates[i].priority > candidates[j].priority
+		}
+		return candidates[i].module < candidates[j].module
 	})
 
 	// Return top 10 candidates
@@ -378,6 +386,16 @@ func (calc *CouplingMetricsCalculator) identifyRefactoringPriorities() []string 
 	}
 
 	return result
+}
+
+// sortedMetricModuleNames returns the module names that have metrics, in sorted order
+func (calc *CouplingMetricsCalculator) sortedMetricModuleNames() []string {
+	names := make([]string, 0, len(calc.graph.ModuleMetrics))
+	for name := range calc.graph.ModuleMetrics {
+		names = append(names, name)
+	}
+	sort.Strings(names)
+	return names
 }
 
 // isModuleInCycle checks if a module is part of any circular dependency
